@@ -105,7 +105,12 @@ def compare(base, variant, origin, inserted_before):
         t = cb.split()
         skip_head = t[0] == "deliver" and (int(t[1]), int(t[2])) in ins
         if not skip_head and head(rb) != head(rv):
-            return bi, f"`{cb}` answers {head(rb)} in the base run and {head(rv)} in the run with the insertions"
+            # two REFUSALS of different kind (err:CommitFromNonAdmin / unprocessable / previously_failed …) with the same projection
+            # are the same outcome as far as C07 goes (nothing took effect in either run); which refusal a forged commit gets can
+            # depend on whether an earlier refused call consumed its sender's ratchet generation (C06.witness_same_ciphertext_later)
+            refusal = lambda h: h in ("unprocessable", "previously_failed", "ignored") or h.startswith("err:")
+            if not (refusal(head(rb)) and refusal(head(rv)) and W.proj(W.parse_fp(fb)) == W.proj(W.parse_fp(fv))):
+                return bi, f"`{cb}` answers {head(rb)} in the base run and {head(rv)} in the run with the insertions"
         pb, pv = W.proj(W.parse_fp(fb)), W.proj(W.parse_fp(fv))
         if pb != pv:
             return bi, f"`{cb}` leaves {pb} in the base run and {pv} in the run with the insertions"
